@@ -155,6 +155,14 @@ func (w *c14World) apply(op c14Op) (skip bool, err error) {
 		return false, nil
 	case "rename":
 		_, toExists := h.M.Datasets[op.To]
+		if op.DS == "X" {
+			// the proxy dataset is outside the model: only the differential oracle follows it
+			if dsm.GetDataset(h.DsName("X")) == nil || dsm.GetDataset(h.DsName(op.To)) != nil {
+				return true, nil
+			}
+			_, err := dsm.UpdateDataset(h.DsName("X"), &server.UpdateDatasetConfig{ID: h.DsName(op.To)})
+			return false, err
+		}
 		if !exists || toExists {
 			return true, nil
 		}
@@ -516,7 +524,7 @@ func c14Replay(task engine.SeqTask) (res engine.SeqResult) {
 			live[h.AbsDs(n.Name)] = true
 		}
 	}
-	for _, n := range []string{"A", "A2", "B", "C", "P"} {
+	for _, n := range []string{"A", "A2", "B", "C", "P", "P2"} {
 		_, inModel := h.M.Datasets[n]
 		if live[n] != inModel {
 			chk.Fail("C14:dataset-list:"+n, fmt.Sprintf("dataset %s listed=%v, the history says exists=%v", n, live[n], inModel))
@@ -594,7 +602,7 @@ func c14Key(w *c14World, obs []string) string {
 			extra = append(extra, x)
 		}
 	}
-	c := h.Canon([]string{"e1", "e2", "e3", "e4"}, []string{"A", "A2", "B", "C", "P", "X", "J"}, strings.Join(extra, "\n"))
+	c := h.Canon([]string{"e1", "e2", "e3", "e4"}, []string{"A", "A2", "B", "C", "P", "P2", "X", "X2", "J"}, strings.Join(extra, "\n"))
 	sum := sha1.Sum([]byte(c))
 	return hex.EncodeToString(sum[:])
 }
@@ -625,6 +633,8 @@ func c14Alphabet(wide bool) []c14Op {
 		ops = append(ops,
 			c14Op{K: "batch", DS: "B", Ents: []server.VEnt{{ID: "e1", C: ix("r2")}}},
 			c14Op{K: "create", DS: "X", N: 2},
+			c14Op{K: "rename", DS: "X", To: "X2"},
+			c14Op{K: "rename", DS: "P", To: "P2"},
 			c14Op{K: "create", DS: "B"},
 			c14Op{K: "addjob", Job: "j2", N: 1},
 			c14Op{K: "addjob", Job: "j3", N: 2},
